@@ -5,7 +5,10 @@
      Accuracy / Completeness / Timing / SilentStop / NoLeftovers for every outcome script up to length 6,
      every threshold, every way the owner may close the session and (scripts up to length 4) every instant at
      which the peer completes the handshake (keep-alive starts at Connect, before it) and every fate of the
-     context given to Connect (kept / cancelled after tick k); reachability witnesses guard against vacuity.
+     context given to Connect (kept / cancelled after tick k); pings that the session's own transport holds past
+     their deadline or past one / two ticks (the ticker keeps one tick and drops the rest: the loop catches up off
+     the ticker's phase) and the ways the pinging side's session is established (legacy initialize / initialize after
+     a rejected server/discover / a protocol version without ping); reachability witnesses guard against vacuity.
   2. TLC exports every case (script, threshold, closing mode, handshake slot, Connect-context slot) with the
      code-shaped expectation.
   3. harness/mcp/c13_keepalive_test.go runs the cases on the real code under testing/synctest at three levels
@@ -14,13 +17,15 @@
   4. The TLA+ monitor spec/KeepAliveMon.tla (TLC over obs.ndjson) gives the verdict with the same predicates;
      equality with the exported expectation is only "drift".
 """
-import json, os, random, threading
+import json, os, random, re, time
 import vlib
 
 PID = "C13"
 WITNESSES = ("NeverClosed", "NeverStopped", "NeverTolerated", "NeverReset", "NeverLateClose", "NeverDrained",
              "NeverPingBeforeHandshake", "NeverClosedBeforeHandshake", "NeverAnsweredBeforeHandshake",
-             "NeverPingAfterCtxCancel", "NeverClosedAfterCtxCancel")
+             "NeverPingAfterCtxCancel", "NeverClosedAfterCtxCancel",
+             "NeverCatchUp", "NeverDroppedTick", "NeverRecoveredAfterHold", "NeverToleratedHold", "NeverClosedByHold",
+             "NeverClosedAfterFallback", "NeverModern", "NeverLeftWithTickWaiting")
 LEVELS = ("func", "server", "client")
 TLC_WORKERS = 4
 
@@ -29,7 +34,7 @@ def consumed(c):
     """The part of the script the keep-alive loop can consume, plus what makes two cases the same run."""
     n = min(c["nping"], len(c["pattern"]))
     pre = "".join(c["pattern"][:n])
-    env = (c["hs"], c["cc"])
+    env = (c["hs"], c["cc"], c["est"])
     if c["closeAt"] >= 0:
         return (pre, c["T"], "-", 0, env)
     # open runs differ by when the owner closes (script length) and how
@@ -37,18 +42,16 @@ def consumed(c):
 
 
 def levels_of(c):
-    """Where a case can be run: the handshake slot is the peer's doing on the side that waits for initialize
-    (a ServerSession); the context given to Connect exists on real sessions; a Close that waits for a
-    request handler only exists on real sessions."""
-    if c["hs"] != 0:
-        return ("server",)
-    if c["cc"] >= 0 or c["end"] == "drain":
-        return ("server", "client")
-    return LEVELS
+    """Where a case can be run is the model's statement (KeepAlive.tla, SidesOf): the handshake slot is the peer's
+    doing on the side that waits for initialize (a ServerSession); the way of establishing the session is the
+    doing of the side that chooses it (a ClientSession); the context given to Connect and a Close that waits for
+    a request handler only exist on real sessions."""
+    return tuple(l for l in LEVELS if l in c["sides"])
 
 
 def env_of(e):
-    return ("" if e["hs"] == 0 else ":hs=%d" % e["hs"]) + ("" if e["cc"] < 0 else ":cc=%d" % e["cc"])
+    return (("" if e["hs"] == 0 else ":hs=%d" % e["hs"]) + ("" if e["cc"] < 0 else ":cc=%d" % e["cc"])
+            + ("" if e["est"] == "init" else ":est=" + e["est"]))
 
 
 def got_of(e):
@@ -58,9 +61,35 @@ def got_of(e):
     return "open"
 
 
+LATE_TICK_SIG = "SilentStop:ping-attempted-after-owner-close:tick-waiting-behind-held-ping"
+
+
+def late_tick(e):
+    """The one shape with a signature of its own (it does not depend on the rest of the script, the threshold or the
+    level): the owner closed the session while the transport held a ping and a tick was waiting; when the transport
+    let go the loop served that tick - exactly one ping attempt after the owner's Close, at the instant the held
+    ping returned, which a real session refuses locally (the scripted session of the function level has no
+    connection to refuse it: there it shows as one unanswered ping at that instant) - and then left."""
+    if e["end"] != "held" or e["userClose"] < 0:
+        return False
+    pings = [p for p in e["pings"] if p["at"] <= e["userClose"]]
+    after = [p for p in e["pings"] if p["at"] > e["userClose"]]
+    if not pings or pings[-1]["o"] != "l":
+        return False
+    ret = pings[-1]["at"] + pings[-1]["h"]
+    late = [t for t in e["attempts"] if t > e["userClose"]]
+    return (pings[-1]["at"] <= e["userClose"] < ret and late == [ret] and len(e["attempts"]) == len(pings) + 1
+            and (not after if e["level"] != "func" else [(p["at"], p["o"]) for p in after] == [(ret, "u")])
+            and e["kaAlive"] == 0 and e["left"] == 0 and e["exit"] == "clean")
+
+
 def sig_of(inv, e):
+    if inv == "SilentStop" and late_tick(e):
+        return LATE_TICK_SIG
     n = len(e["pings"])
-    pre = "".join(p["o"] for p in e["pings"]) or "-"
+    pre = "".join(p["k"] if p["o"] == "l" else p["o"] for p in e["pings"]) or "-"
+    if len(e["attempts"]) > len(e["pings"]):
+        pre += "+%dx" % (len(e["attempts"]) - len(e["pings"]))   # attempts that never reached the peer
     s = "%s:%s:pattern=%s:T=%d:%s" % (inv, e["level"], pre, e["T"], got_of(e))
     if e["closed"] < 0:
         s += ":end=" + e["end"] + (str(e["drain"]) if e["end"] == "drain" else "")
@@ -122,6 +151,10 @@ def run(tier, seed, replay):
         "report a failed delivery) or an error reply other than method-not-found; a fatal write error ends the "
         "connection on its own and is outside this property",
         "client-side keep-alive exists only on legacy-protocol sessions: client scenarios pin 2024-11-05 .. 2025-11-25",
+        "a goroutine count that differs from the expected one is never taken for a leftover: the goroutine dump of the bubble decides "
+        "(the count is the process's and moves with goroutines outside the bubble); the dumps of one test process are limited to 1 GiB in "
+        "total, which only an implementation leaking thousands of goroutines reaches - censuses after that are marked and a run that has "
+        "them and found nothing ends with exit 2",
         "'no timer left behind' is observed as: no ping, no goroutine and a clean bubble exit during 24 virtual hours; "
         "an unreferenced, never-firing-into-anything ticker cannot be observed from Go",
         "ping attempts are observed with a sending middleware (session levels), so pings refused locally by a closing connection count",
@@ -134,9 +167,28 @@ def run(tier, seed, replay):
         "inside the runtime, independently of the code under test) and the run ends with exit 2, naming the scenario, if every attempt got stuck",
         "owner-Close-during-drain: the peer's request (tools/call on servers, sampling/createMessage on clients) runs a handler that "
         "ignores its context and is released 1 or 2 intervals after Close began",
+        "held pings: the session's own transport holds the write of a ping for 9/16 of an interval (past the ping's deadline), "
+        "1 + 1/16 or 2 + 1/16 intervals (past one / two ticks) whatever the ping's context says, then lets it out and the peer "
+        "answers at once; such a ping is a miss (no answer within interval/2 of the session sending it) and is recorded at the "
+        "instant the session handed it to the transport; a ping handed over with a context that has already ended is refused by "
+        "the transport (as ioConn.Write does) and is an attempt, not a ping the peer missed; at most one held ping per script, "
+        "scripts of length <= 4; a ping held past a tick is followed by the ping the loop sends for the tick that was waiting, or (held "
+        "past two ticks, the script's last) the owner closes the session a quarter of an interval after the first of them; the time bound of the property is extended by the time a ping was held beyond what "
+        "it is allotted (an interval when another follows, a ping timeout when it is the last)",
+        "how a ClientSession is established: legacy version asked for / latest version (by default or spelled out) with the peer "
+        "rejecting server/discover in six ways (method-not-found, unsupported-version with and without a supported list, a result "
+        "listing legacy versions only, internal error, unsupported-then-method-not-found) and then accepting initialize / "
+        "server/discover accepted; 'keep-alive is in force' is judged on the version the real session reports afterwards "
+        "(ping exists below 2026-07-28, ClientOptions.KeepAlive documents the same); scripts of length <= 3; server sessions are "
+        "established by the peer's initialize only (a ServerSession whose peer uses server/discover is not exercised)",
         "TLC exhaustive results are for scripts of length <= 6 and the stated thresholds",
     ]
     out = vlib.outdir(PID)
+    stage, t_stage = {}, [time.time()]
+
+    def lap(name):
+        stage[name] = round(stage.get(name, 0) + time.time() - t_stage[0], 1)
+        t_stage[0] = time.time()
     for f in os.listdir(out):
         if f.startswith("stuck-seed"):
             os.remove(os.path.join(out, f))
@@ -153,23 +205,17 @@ def run(tier, seed, replay):
 
     # 1b. vacuity witnesses: each must be violated
     if not replay:
-        base = open(os.path.join(vlib.SPEC, "KeepAlive_wit.cfg")).read()
-        wres = {}
-
-        slots = threading.Semaphore(TLC_WORKERS)
-
-        def wit(w):
-            with slots:
-                wd = vlib.scratch("c13wit-")
-                wres[w] = vlib.run_tlc("KeepAliveMC", "wit.cfg", workdir=wd, extra_files={"wit.cfg": base + "INVARIANT %s\n" % w},
-                                       workers=1, timeout=300, heap_gb=1)
-        ths = [threading.Thread(target=wit, args=(w,)) for w in WITNESSES]
-        [t.start() for t in ths]
-        [t.join() for t in ths]
+        # one run (one worker: the witnesses already refuted are kept in TLC registers) reports the first state
+        # that refutes each witness
+        wres = vlib.run_tlc("KeepAliveMC", "KeepAlive_wit.cfg", workers=1, timeout=300, heap_gb=2)
+        vlib.tlc_must_pass(wres, "KeepAlive_wit.cfg")
+        reached = {p["wit"] for p in wres.printed if isinstance(p, dict) and "wit" in p}
         for w in WITNESSES:
-            if wres[w].violation != w:
-                raise vlib.MachineryError("vacuity: witness %s not reachable (%s)" % (w, wres[w].error or wres[w].violation))
+            if w not in reached:
+                raise vlib.MachineryError("vacuity: witness %s not reachable (%s)" % (w, wres.error or wres.violation or sorted(reached)))
+        v.add_tlc("KeepAlive_wit.cfg (%d reachability witnesses)" % len(WITNESSES), wres)
 
+    lap("design_and_witnesses")
     # 2. cases
     gres = vlib.run_tlc("KeepAliveMC", "KeepAlive_gen.cfg", workers=TLC_WORKERS, timeout=900, heap_gb=4)
     vlib.tlc_must_pass(gres, "KeepAlive_gen.cfg")
@@ -177,14 +223,18 @@ def run(tier, seed, replay):
     if not gres.ok:
         raise vlib.MachineryError("the KeepAlive model violates %s: design check failed" % gres.violation)
     cases = [p for p in gres.printed if isinstance(p, dict) and "pattern" in p and "closeAt" in p]
-    cases.sort(key=lambda c: (len(c["pattern"]), c["pattern"], c["T"], c["end"], c["drain"], c["hs"] != 0, c["cc"] >= 0, c["hs"], c["cc"]))
-    # the model's statement about the two environment dimensions: they do not change what the loop does
-    base = {(tuple(c["pattern"]), c["T"], c["end"], c["drain"]): c for c in cases if c["hs"] == 0 and c["cc"] < 0}
+    cases.sort(key=lambda c: (len(c["pattern"]), c["pattern"], c["T"], c["end"], c["drain"], c["hs"] != 0, c["cc"] >= 0, c["hs"], c["cc"], c["est"]))
+    # the model's statement about the environment dimensions: when the handshake completes, what becomes of the Connect
+    # context and a fallback from server/discover to initialize do not change what the loop does
+    base = {(tuple(c["pattern"]), c["T"], c["end"], c["drain"]): c for c in cases if c["hs"] == 0 and c["cc"] < 0 and c["est"] == "init"}
     for c in cases:
         b = base.get((tuple(c["pattern"]), c["T"], c["end"], c["drain"]))
-        if b is None or any(b[f] != c[f] for f in ("nping", "closeAt", "userAt", "final", "ticks")):
-            raise vlib.MachineryError("KeepAlive.tla: handshake slot %d / Connect-context slot %d changes the run of %s" % (
-                c["hs"], c["cc"], json.dumps(b)))
+        if c["est"] == "modern":
+            if c["nping"] != 0 or c["closeAt"] >= 0:
+                raise vlib.MachineryError("KeepAlive.tla: a session without ping is pinged: %s" % json.dumps(c))
+        elif b is None or any(b[f] != c[f] for f in ("nping", "closeAt", "userAt", "final", "ticks", "holds")):
+            raise vlib.MachineryError("KeepAlive.tla: handshake slot %d / Connect-context slot %d / establishing by %s changes the run of %s" % (
+                c["hs"], c["cc"], c["est"], json.dumps(b)))
     for i, c in enumerate(cases):
         c["id"] = i
     ncases = len(cases)
@@ -193,6 +243,8 @@ def run(tier, seed, replay):
     v.cov["cases_exported"] = ncases
     v.cov["cases_late_or_no_handshake"] = sum(1 for c in cases if c["hs"] != 0)
     v.cov["cases_connect_context_cancelled"] = sum(1 for c in cases if c["cc"] >= 0)
+    v.cov["cases_with_held_ping"] = sum(1 for c in cases if any(x.startswith("l") for x in c["pattern"]))
+    v.cov["cases_by_establishment"] = {m: sum(1 for c in cases if c["est"] == m) for m in ("init", "fallback", "modern")}
 
     # 3. which levels run which cases
     rng = random.Random(seed)
@@ -201,7 +253,8 @@ def run(tier, seed, replay):
         rep = json.load(open(replay))["replay"]
         want = rep["case"]
         match = [c for c in cases if c["pattern"] == want["pattern"] and c["T"] == want["T"] and c["end"] == want["end"]
-                 and c["drain"] == want.get("drain", 0) and c["hs"] == want.get("hs", 0) and c["cc"] == want.get("cc", -1)]
+                 and c["drain"] == want.get("drain", 0) and c["hs"] == want.get("hs", 0) and c["cc"] == want.get("cc", -1)
+                 and c["est"] == want.get("est", "init")]
         if not match:
             raise vlib.MachineryError("replay case not in the exported case set")
         match[0]["levels"] = [rep["level"]]
@@ -221,6 +274,7 @@ def run(tier, seed, replay):
         v.cov["distinct_runs"] = len(seen)
         if tier == "thorough":
             seeds = [seed, seed + 1000, seed + 2000]
+    lap("case_export")
     cases_path = os.path.join(out, "cases.ndjson")
     vlib.write_ndjson(cases_path, run_cases)
     expected = sum(len(c["levels"]) for c in run_cases)
@@ -253,9 +307,12 @@ def run(tier, seed, replay):
             rows += part_rows
             os.remove(part)
 
+    lap("real_code")
     # 5. monitor: the verdict
     fails, mres = vlib.run_monitor("KeepAliveMon", "KeepAliveMon.cfg", obs_path, timeout=1200, heap_gb=6)
     v.add_tlc("KeepAliveMon", mres)
+    lap("monitor")
+    v.cov["stage_wall_s"] = stage
     v.cov["traces_validated_against_impl"] = len(rows)
     v.cov["evaluations"] = len(rows)
     by_level = {}
@@ -263,32 +320,46 @@ def run(tier, seed, replay):
     for r in rows:
         by_level[r["level"]] = by_level.get(r["level"], 0) + 1
         if r["pings"]:
-            distinct.add((r["level"], "".join(p["o"] for p in r["pings"]), r["T"], (r["end"] + str(r["drain"])) if r["closed"] < 0 else "-",
-                          len(r["pattern"]) if r["closed"] < 0 else 0, r["hs"], r["cc"]))
+            distinct.add((r["level"], "".join(p["k"] for p in r["pings"]), r["T"], (r["end"] + str(r["drain"])) if r["closed"] < 0 else "-",
+                          len(r["pattern"]) if r["closed"] < 0 else 0, r["hs"], r["cc"], r["est"]))
     v.cov["scenarios_by_level"] = by_level
     v.cov["distinct_nontrivial"] = len(distinct)
     v.cov["closed_by_keepalive"] = sum(1 for r in rows if r["closed"] >= 0)
     v.cov["stopped_on_method_not_found"] = sum(1 for r in rows if any(p["o"] == "m" for p in r["pings"]))
     v.cov["owner_closed_with_ping_in_flight"] = sum(1 for r in rows if any(p["o"] == "u" for p in r["pings"]))
+    v.cov["owner_closed_while_ping_held"] = sum(1 for r in rows if r["end"] == "held" and r["userClose"] >= 0)
     v.cov["owner_closed_while_handler_running"] = sum(1 for r in rows if r["released"] >= 0)
     v.cov["pinged_before_handshake"] = sum(1 for r in rows if r["hs"] != 0 and any(r["hsAt"] < 0 or p["at"] < r["hsAt"] for p in r["pings"]))
     v.cov["closed_before_handshake"] = sum(1 for r in rows if r["hs"] != 0 and r["closed"] >= 0 and r["hsAt"] < 0)
     v.cov["pinged_after_connect_context_cancelled"] = sum(1 for r in rows if r["ccAt"] >= 0 and any(p["at"] > r["ccAt"] for p in r["pings"]))
     v.cov["closed_after_connect_context_cancelled"] = sum(1 for r in rows if 0 <= r["ccAt"] < r["closed"])
+    v.cov["held_pings_seen"] = sum(1 for r in rows for p in r["pings"] if p["o"] == "l")
+    v.cov["caught_up_after_held_ping"] = sum(1 for r in rows if any(p["o"] == "l" and p["h"] > r["I"] for p in r["pings"][:-1]))
+    v.cov["closed_with_held_ping_in_run"] = sum(1 for r in rows if r["closed"] >= 0 and any(p["o"] == "l" for p in r["pings"][-max(1, r["T"]):]))
+    v.cov["client_sessions_by_establishment"] = {m: sum(1 for r in rows if r["level"] == "client" and r["est"] == m) for m in ("init", "fallback", "modern")}
+    v.cov["fallback_sessions_pinged"] = sum(1 for r in rows if r["est"] == "fallback" and r["pings"])
+    v.cov["discover_rejections"] = {d: sum(1 for r in rows if r["disc"] == d) for d in sorted({r["disc"] for r in rows if r["est"] == "fallback"})}
     v.cov["quiet_period_cut_by_watchdog"] = sum(1 for r in rows if r["quietCut"])
     v.cov["rule"] = ("cases = every terminal behaviour of KeepAlive.tla (all outcome scripts over {a,t,m,c} of length <= 6 x thresholds "
-                     "{0,1,2,3} x owner closes idle / with a ping in flight / while a request handler keeps Close waiting for 1 or 2 intervals (session levels only); "
+                     "{0,1,2,3} x owner closes idle / with a ping in flight / while a request handler keeps Close waiting for 1 or 2 intervals (session levels only) "
+                     "/ while the transport holds the script's last ping past two ticks; "
                      "scripts of length <= 4 also x peer completes the handshake after tick 1..4 or never (server sessions) + context given to Connect cancelled "
-                     "after tick 0..4 (server and client sessions)), each run at the function level where it exists there; session levels (server, client) run every "
+                     "after tick 0..4 (server and client sessions); scripts of length <= 4 with one ping held by the transport for 9/16, 1 1/16 or 2 1/16 intervals "
+                     "(not last when past a tick); scripts of length <= 3 x client session established by fallback from server/discover to initialize / by "
+                     "server/discover (no ping)), each run at the function level where it exists there; session levels (server, client) run every "
                      "distinct run (consumed script prefix, threshold, closing mode) plus a seeded sample (quick) or every case (thorough, "
-                     "3 concretisation seeds); distinct = (level, outcomes actually consumed, threshold, closing mode, handshake slot, context slot); non-trivial = at least one ping")
+                     "3 concretisation seeds); distinct = (level, outcomes actually consumed, threshold, closing mode, handshake slot, context slot, way of establishing); non-trivial = at least one ping")
     v.cov["exhaustive"] = not replay
     for r in rows[:: max(1, len(rows) // 5)][:5]:
-        v.sample({k: r[k] for k in ("level", "pattern", "T", "end", "drain", "hs", "cc", "hsAt", "ccAt", "I", "pings", "attempts", "closed", "userClose", "kaEarly", "kaAlive", "left", "exit")})
+        v.sample({k: r[k] for k in ("level", "pattern", "T", "end", "drain", "hs", "cc", "est", "disc", "neg", "pingable", "hsAt", "ccAt", "I", "pings", "attempts", "closed", "userClose", "kaEarly", "kaAlive", "left", "exit")})
     vio = []
+    # a run whose only deviation is a known finding is reported as that finding, not again as drift
+    explained = {f["line"] for f in fails if f["monfail"] != "drift" and sig_of(f["monfail"], rows[f["line"] - 1]) in v.known}
     for f in fails:
         e = rows[f["line"] - 1]
-        if f["monfail"] == "drift":
+        if f["monfail"] == "drift" and f["line"] in explained:
+            v.cov["drift_explained_by_known_finding"] = v.cov.get("drift_explained_by_known_finding", 0) + 1
+        elif f["monfail"] == "drift":
             v.drift.append("%s pattern=%s T=%d end=%s%s I=%dus: observed pings/closing differ from KeepAlive.tla (%s, pings at %s, handshake %d, context %d, exp %s)" % (
                 e["level"], "".join(e["pattern"]) or "-", e["T"], e["end"], env_of(e), e["I"], got_of(e), [p["at"] for p in e["pings"]],
                 e["hsAt"], e["ccAt"], e["exp"]))
@@ -296,6 +367,13 @@ def run(tier, seed, replay):
             vio.append((len(e["pings"]), sig_of(f["monfail"], e), f["monfail"], e))
     vio.sort(key=lambda x: (x[0], x[1]))
     v.cov["monitor_failures"] = len(vio)
+    # A census whose goroutine count was off and that could not be settled by a goroutine dump (dump budget used up,
+    # which takes an implementation that leaks goroutines by the thousand) is no observation: what was found until then
+    # is reported, but "nothing found" is not a result.
+    blind = sum(r["uninspected"] for r in rows)
+    v.cov["censuses_not_inspected"] = blind
+    if blind and not vio:
+        raise vlib.MachineryError("%d goroutine censuses could not be inspected (dump budget used up) and nothing else was found: no verdict" % blind)
     seen_sig = set()
     for _, sig, inv, e in vio:
         if sig in seen_sig:
@@ -303,12 +381,13 @@ def run(tier, seed, replay):
         seen_sig.add(sig)
         if len(seen_sig) > 12 and sig not in v.known:
             continue
-        case = {"pattern": e["pattern"], "T": e["T"], "end": e["end"], "drain": e["drain"], "hs": e["hs"], "cc": e["cc"]}
-        v.violation(sig, "real keep-alive run violates %s: level=%s script=%s threshold=%d interval=%dus, peer completes the handshake: %s, Connect context %s: %s, pings %s, owner close %s, left=%d exit=%s" % (
+        case = {"pattern": e["pattern"], "T": e["T"], "end": e["end"], "drain": e["drain"], "hs": e["hs"], "cc": e["cc"], "est": e["est"]}
+        v.violation(sig, "real keep-alive run violates %s: level=%s script=%s threshold=%d interval=%dus, session established by %s, peer completes the handshake: %s, Connect context %s: %s, pings (handed to the transport at, outcome, held for) %s, owner close %s, left=%d exit=%s" % (
             inv, e["level"], "".join(e["pattern"]) or "-", e["T"], e["I"],
+            e["est"] if e["est"] == "init" else "%s (asked for %s, server/discover %s, speaks %s)" % (e["est"], e["hand"], e["disc"], e["neg"] or "?"),
             "%dus" % e["hsAt"] if e["hsAt"] >= 0 else ("never" if e["hs"] < 0 else "not while the session lasted (due after tick %d)" % e["hs"]),
             "cancelled at %dus" % e["ccAt"] if e["ccAt"] >= 0 else "kept alive", got_of(e),
-            [(p["at"], p["o"]) for p in e["pings"]], "%s (ping attempts %s, keep-alive loops alive after Close began %d / settled %d)" % (
+            [(p["at"], p["o"], p["h"]) for p in e["pings"]], "%s (ping attempts %s, keep-alive loops alive after Close began %d / settled %d)" % (
                 e["userClose"], e["attempts"], e["kaEarly"], e["kaAlive"]), e["left"], e["exit"][:80]),
             {"case": case, "level": e["level"], "seed": e["seed"], "observation": e})
     return v.finish()
